@@ -168,6 +168,51 @@ def gen_e1w(rng, cid):
     return '\n'.join(lines)
 
 
+# ----------------------------------------------------------------------------- E1 generator, C03x
+def gen_e1x(rng, cid):
+    """life cycle of the schedule_from / let_value / let_error operation state (let kinds: `sched_<ch> v` completes
+    the successor sender the user function returned): the three activities `start`, completion of the predecessor
+    (any channel) and completion of the scheduler (any channel) on own threads, sharing threads, or all on one
+    thread in any program order (a completion requested before its operation state is started is delivered inline
+    inside that start: predecessor inline in start(), scheduler inline in start(*scheduler_op_state)); with three
+    threads the scheduler may complete on the target thread while the predecessor's thread is still inside
+    start(*scheduler_op_state) (preemption point sf.armed); two thirds with a self-deleting operation state in
+    guarded memory (life=1)"""
+    kind = rng.weighted([('schedule_from', 5), ('let_value', 4), ('let_error', 2)])
+    seed = rng.below(1 << 30)
+    strat = rng.weighted([(0, 5), (1, 3), (2, 2)])
+    life = ' life=1' if rng.below(3) != 0 else ''
+    pch = rng.weighted([('value', 7), ('error', 2), ('stopped', 1)] if kind != 'let_error' else [('value', 2), ('error', 7), ('stopped', 1)])
+    sch = rng.weighted([('value', 5), ('error', 3), ('stopped', 2)])
+    # let kinds: the user function throws / (let_value) storing the predecessor's value throws -> set_error
+    if kind != 'schedule_from' and rng.below(6) == 0:
+        life += ' fthrow=1'
+    elif kind == 'let_value' and rng.below(8) == 0:
+        life += ' sthrow=1'
+    ops = ['start', f'complete_{pch} 0 {1 + rng.below(9)}', f'sched_{sch} {1 + rng.below(9)}']
+    if rng.below(12) == 0:
+        ops.pop(1 + rng.below(2))          # the predecessor or the scheduler never completes
+    mode = rng.below(4)                    # 0/1: own threads, 2: random sharing, 3: one thread
+    progs = []
+    for op in ops:
+        if mode <= 1 or not progs or (mode == 2 and rng.below(2) == 0):
+            progs.append([op])
+        else:
+            progs[rng.below(len(progs))].append(op)
+    for pr in progs:
+        for j in range(len(pr) - 1, 0, -1):
+            k2 = rng.below(j + 1)
+            pr[j], pr[k2] = pr[k2], pr[j]
+    for j in range(len(progs) - 1, 0, -1):
+        k2 = rng.below(j + 1)
+        progs[j], progs[k2] = progs[k2], progs[j]
+    lines = [f'case {cid} kind={kind} seed={seed} strat={strat}{life}']
+    for t, pr in enumerate(progs):
+        lines.append(f'thread {t}: ' + ' ; '.join(pr) + ' ;')
+    lines.append('endcase')
+    return '\n'.join(lines)
+
+
 # ----------------------------------------------------------------------------- E0 static generator (C03s)
 U8 = ['then', 'lv', 'le', 'co', 'un', 'dv', 'rs', 'dos']
 U6 = ['then', 'lv', 'le', 'co', 'rs', 'dos']
@@ -450,7 +495,9 @@ def main():
     # Props/C03s.lean (payload locations: every payload is read while its operation state is alive)
     # Props/C03w.lean (life cycle of the when_all / when_all_vector operation state: one completion by the last
     # child, no access after the last decrement, destroyed exactly once)
-    PROPS = ['C03', 'C03Life', 'C03s', 'C03w']
+    # Props/C03x.lean (life cycle of the schedule_from operation state: one completion, the denoted one, the forwarding
+    # call is the last access, reset precedes it, every stored object destroyed exactly once; swapped-order witness)
+    PROPS = ['C03', 'C03Life', 'C03s', 'C03w', 'C03x']
     ok_build, build_log = lean_build(PROPS)
     audit = {'obligations': 0, 'discharged': 0, 'problems': ['lake build failed'], 'theorems': [],
              'checker_cmd': f'cd {LEAN} && lake build'}
@@ -544,6 +591,9 @@ def main():
             # C03w (added after everything else: the cases above are unchanged): life cycle of when_all / when_all_vector
             for i in range(3000 if tr == 'thorough' else 250):
                 e1_cases.append(gen_e1w(rng, f'w{base_seed}n{i}'))
+            # C03x (added after everything else: the cases above are unchanged): life cycle of schedule_from
+            for i in range(4000 if tr == 'thorough' else 400):
+                e1_cases.append(gen_e1x(rng, f'x{base_seed}s{i}'))
 
     def run_static(e0s, tag):
         """statically typed E0 cases: static=1 on the pure binary (a term it does not recognise is re-run on the REF
@@ -597,7 +647,7 @@ def main():
     if (not proof_ok or kinds['tie'] > 0) and kinds['monitor'] == 0 and not replay:
         xe0 = [gen_e0(rng, f'x{base_seed}n{i}', pool=(i % 4 == 3)) for i in range(6000)]
         xe0 += [gen_e0_static(rng, f'z{base_seed}n{i}', pool=(i % 8 == 7)) for i in range(3000)]
-        xe1 = ([gen_e1(rng, f'y{base_seed}n{i}') for i in range(3000)] + [gen_e1w(rng, f'yw{base_seed}n{i}') for i in range(1500)]) if 'e1_split' in builds else []
+        xe1 = ([gen_e1(rng, f'y{base_seed}n{i}') for i in range(3000)] + [gen_e1w(rng, f'yw{base_seed}n{i}') for i in range(1500)] + [gen_e1x(rng, f'yx{base_seed}n{i}') for i in range(1500)]) if 'e1_split' in builds else []
         xres = run_all(xe0, xe1, 'x')
         extra_run = len(xres)
         for x in xres:
@@ -697,7 +747,7 @@ def main():
         ],
         'evaluations': len(results) + extra_run,
         'distinct_nontrivial': len(nontriv),
-        'rule': 'E0-static (C03s): a third of the E0 cases are STATICALLY TYPED pipelines of the same term language with the same expected lines: static=1 = an instance of the pure catalogue (145 shapes: leaves; when_all of 1-3 / when_all_vector / split / ensure_started over leaves; each of then/let_value/let_error/continues_on/unpack/drop_value/require_started/drop_operation_state over a leaf, over just, over each storing predecessor and over each other; drop_operation_state over those; mixed storing shapes), one pika expression connected directly to the typed probe and terminal receiver, no erasure; static=2 = any term on the REF tier (sum types of senders to adaptor depth 3, receivers reached through a handle that forwards references, operation states nested in place; deeper sub-terms and st/bulk/when_all-of-4 are erased once = holes); leaves keep values / exception_ptr in their operation state and complete with references to them, let_value bodies read the predecessor values through the reference when started; error channel over-represented below drop_operation_state / let_error / continues_on; split optionally consumed once before the real consumer connects (spre=1); pool terms on the REF tier; all inline static cases again under ASan. E0: random pipeline terms (2-12 nodes over just/err/stop/arg/schedule/transfer_just/then/let_value/let_error/drop_value/unpack/continues_on/bulk(generic)/require_started/drop_operation_state/when_all/when_all_vector/split/ensure_started/split_tuple, all three channels at leaves and inline schedulers, throwing callables, consumers terminal receiver / start_detached / sync_wait); E0-pool: the same terms with schedule/continues_on/transfer_just on pika thread_pool_scheduler of a running 2-worker runtime (completion on worker threads, ensure_started racing with the consumer, when_all predecessors racing; at most one non-value predecessor per when_all so that the denotation is order independent), results compared modulo placement after the runtime is idle; non-trivial = at least 3 operators, distinct = distinct (term, consumer). E1: split / ensure_started / split_tuple shared state and when_all counter with 2-5 threads under PRNG schedules; non-trivial = a continuation was stored or the counter was decremented concurrently',
+        'rule': 'E0-static (C03s): a third of the E0 cases are STATICALLY TYPED pipelines of the same term language with the same expected lines: static=1 = an instance of the pure catalogue (145 shapes: leaves; when_all of 1-3 / when_all_vector / split / ensure_started over leaves; each of then/let_value/let_error/continues_on/unpack/drop_value/require_started/drop_operation_state over a leaf, over just, over each storing predecessor and over each other; drop_operation_state over those; mixed storing shapes), one pika expression connected directly to the typed probe and terminal receiver, no erasure; static=2 = any term on the REF tier (sum types of senders to adaptor depth 3, receivers reached through a handle that forwards references, operation states nested in place; deeper sub-terms and st/bulk/when_all-of-4 are erased once = holes); leaves keep values / exception_ptr in their operation state and complete with references to them, let_value bodies read the predecessor values through the reference when started; error channel over-represented below drop_operation_state / let_error / continues_on; split optionally consumed once before the real consumer connects (spre=1); pool terms on the REF tier; all inline static cases again under ASan. E0: random pipeline terms (2-12 nodes over just/err/stop/arg/schedule/transfer_just/then/let_value/let_error/drop_value/unpack/continues_on/bulk(generic)/require_started/drop_operation_state/when_all/when_all_vector/split/ensure_started/split_tuple, all three channels at leaves and inline schedulers, throwing callables, consumers terminal receiver / start_detached / sync_wait); E0-pool: the same terms with schedule/continues_on/transfer_just on pika thread_pool_scheduler of a running 2-worker runtime (completion on worker threads, ensure_started racing with the consumer, when_all predecessors racing; at most one non-value predecessor per when_all so that the denotation is order independent), results compared modulo placement after the runtime is idle; non-trivial = at least 3 operators, distinct = distinct (term, consumer). E1: split / ensure_started / split_tuple shared state and when_all counter with 2-5 threads under PRNG schedules; non-trivial = a continuation was stored or the counter was decremented concurrently; C03x: schedule_from / let_value / let_error over a manual leaf (counted value type) and a manual scheduler / successor sender: start, completion of the predecessor and completion of the scheduler / successor on own threads, shared threads or one thread in any order (inline completions), all channels, throwing user function / throwing store (let kinds), two thirds with a self-deleting guarded operation state; every statement-level event (store, call, connect, start, reset, forward, destruction of the stored value and of the inner operation state) replayed through the Lean acceptors SchedFromLife / LetLife',
         'samples': samples,
         'traces_validated_against_impl': kinds['pass'],
         'disagreements_checked': kinds['tie'],
